@@ -155,7 +155,7 @@ class MakeFreeMixin(ChemistryMixin):
             nonexist_profile = \
                 np.array([g.mixProfile for g in self.active_nonexist])
             if mix_profile is None:
-                return nonexist_profile
+                return nonexist_profile/self.norm_factor
             else:
                 return np.concatenate((mix_profile, nonexist_profile))/self.norm_factor
         else:
